@@ -204,7 +204,7 @@ def prop_case(draw, tier):
 
 
 def parts(tier):
-    return [
+    return [Part("class_twins", strategy=lambda t: S.class_twin_spec().map(lambda s_: {"model": s_, "points": None}), check=check_prop, quick=(1, 300), thorough=(2, 3000)), Part("by_reference", strategy=lambda t: S.by_reference_spec().map(lambda s_: {"model": s_, "points": None}), check=check_prop, quick=(1, 200), thorough=(2, 2000))] + [
         Part("propositions", strategy=lambda t: prop_case(t), check=check_prop, quick=(5, 300), thorough=(10, 2000)),
         Part("configs", strategy=lambda t: config_case(t), check=check_config, quick=(3, 500), thorough=(6, 3000)),
     ]
